@@ -124,6 +124,9 @@ func (u uniqRec) weight() int {
 	return u.Count
 }
 
+// uniqOBIHeaders: the input file of the current case is written with OBI-style headers.
+var uniqOBIHeaders bool
+
 func (u uniqRec) text() string {
 	a := map[string]any{}
 	if u.Count > 0 {
@@ -144,6 +147,11 @@ func (u uniqRec) text() string {
 	}
 	r := Rec{ID: u.ID, Seq: u.Seq, Annot: a}
 	h := jsonHeader(r)
+	if uniqOBIHeaders {
+		// the historical key=value; header (merged maps as {'a': 2, ...}): the readers then
+		// deliver other Go types for the same values
+		h = obiHeader(r)
+	}
 	if h != "" {
 		h = " " + h
 	}
@@ -473,9 +481,13 @@ func runC06(rc *RunCtx) {
 		perm = drawPerm(t, len(recs))
 		p = drawParCfg(t, len(recs))
 	}
+	uniqOBIHeaders = !large && t.Choose(3) == 2
 	var sb strings.Builder
 	for _, i := range perm {
 		sb.WriteString(recs[i].text())
+	}
+	if uniqOBIHeaders {
+		rc.Probe("input_with_obi_style_headers")
 	}
 	dir := filepath.Join(rc.Dir, fmt.Sprintf("u%d", rc.Index))
 	defer cleanup(dir)
